@@ -187,6 +187,37 @@ def _task_actisense(args):
     return n, bad
 
 
+def _task_alldefs(args):
+    """every definition of the database (not only one per PGN): a message decoded from frames whose identifier says
+    (priority, PGN, source, destination) reports exactly those, through each frame-level format"""
+    idxs, = args
+    db = refdb.db()
+    from .. import payloads
+    bad, n = [], 0
+    for di in idxs:
+        defn = db.defs[di]
+        p, nb = payloads.build(defn, payloads.base_assignment(defn, "mid"))
+        if nb == 0 or nb > 223 or (not defn.fast and nb > 8):
+            continue
+        payload = p.to_bytes(nb, "little")
+        pdu1 = ((defn.pgn >> 8) & 0xFF) < 240
+        for prio, src, dst in ((0, 0, 0), (7, 254, 255), (3, 17, 35)):
+            if not pdu1:
+                dst = 255
+            for ename, fn in wire.entry_points(defn.pgn, payload, defn.fast, prio=prio, src=src, dst=dst, seq=(di + prio) % 8).items():
+                if ename in ("plain_combined", "plain_frames"):
+                    continue
+                back = call(fn, NMEA2000Decoder())
+                if back is None or isinstance(back, str):
+                    continue            # this payload is not decodable as such (C01's subject)
+                n += 1
+                got = (back.PGN, back.source, back.destination, back.priority)
+                exp = (defn.pgn, src, dst, prio)
+                if got != exp and len(bad) < 20:
+                    bad.append(("decoded_header:" + ename, (prio, defn.pgn, src, dst), got, f"{exp} (definition {back.id})"))
+    return n, bad
+
+
 def _task_fast_header(args):
     """the addressing and priority a reassembled fast-packet message reports are those of ITS OWN frames' identifiers,
     whatever an earlier (truncated, orphaned or complete) transmission on the same stream carried"""
@@ -217,8 +248,10 @@ def _task_fast_header(args):
                             for fr in wire.fast_frames(5, payload_b):
                                 back = feed(dec, id2, fr)
                             n += 1
+                            if back is None or isinstance(back, str):
+                                continue          # whether the message is reassembled at all is C03/C04's subject
                             exp = (pgn, src, dst, p2)
-                            got = (back.PGN, back.source, back.destination, back.priority) if back is not None and not isinstance(back, str) else back
+                            got = (back.PGN, back.source, back.destination, back.priority)
                             if got != exp and len(bad) < 20:
                                 bad.append(("fast_packet_header:" + entry, (p2, pgn, src, dst), got,
                                             f"{exp} (earlier transmission on the stream: {disturbance} with priority {p1})"))
@@ -226,7 +259,7 @@ def _task_fast_header(args):
 
 
 def _dispatch(t):
-    return {"ids": _task_ids, "idlist": _task_idlist, "tuples": _task_tuples, "public": _task_public, "acti": _task_actisense, "fasthdr": _task_fast_header}[t[0]](t[1])
+    return {"ids": _task_ids, "idlist": _task_idlist, "tuples": _task_tuples, "public": _task_public, "acti": _task_actisense, "fasthdr": _task_fast_header, "alldefs": _task_alldefs}[t[0]](t[1])
 
 
 def run(ctx):
@@ -263,6 +296,8 @@ def run(ctx):
         tasks.append(("acti", (list(range(i, i + step)) if ctx.thorough else list(range(i, i + step, 2)) + [255],)))
     for entry in ("ebyte", "usb", "yd"):
         tasks.append(("fasthdr", (entry,)))
+    for j in range(16):
+        tasks.append(("alldefs", (list(range(len(db.defs)))[j::16],)))
     results = common.pmap(_dispatch, tasks)
     vios = []
     counts = {}
@@ -282,7 +317,7 @@ def run(ctx):
                     {"identifier": hex(wire.can_id(6, 130816, 255, 17)), "parsed": list(wire.parse_id(wire.can_id(6, 130816, 255, 17)))}],
         "per_part": counts, "identifier_space": space, "direct_helpers_found": direct,
         "bound_completed": space + "; canonical + non-canonical tuples on a boundary grid; public packet paths for every encodable PGN x 36 "
-                                   "addressings; reassembled fast-packet headers after 4 kinds of earlier transmission x 8 x 8 priorities x 3 formats; Actisense header over " + ("all" if ctx.thorough else "half of the") + " sources x all destinations x 8 priorities",
+                                   "addressings; every definition's base message through 4 entry points x 3 addressings; reassembled fast-packet headers after 4 kinds of earlier transmission x 8 x 8 priorities x 3 formats; Actisense header over " + ("all" if ctx.thorough else "half of the") + " sources x all destinations x 8 priorities",
         "exhaustive": True,
     }
     return {"coverage": cov, "violations": vios,
@@ -300,6 +335,10 @@ def replay(ctx, rep):
         prio, pgn, src, dst = inp
         ident = build(pgn, src, dst, prio)
         bad = [] if ident == wire.can_id(prio, pgn, src, dst) and parse(ident) == (pgn, src, dst if ((pgn >> 8) & 0xFF) < 240 else 255, prio) else [(c["kind"], inp, ident, None)]
+    elif c["kind"].startswith("decoded_header:"):
+        db = refdb.db()
+        n, bad = _task_alldefs(([d.idx for d in db.by_pgn[inp[1]]],))
+        bad = [b for b in bad if list(b[1]) == list(inp)][:1] or bad[:1]
     elif c["kind"].startswith("fast_packet_header:"):
         n, bad = _task_fast_header((c["kind"].split(":")[1],))
         bad = [b for b in bad if list(b[1]) == list(inp)][:1] or bad[:1]
